@@ -212,7 +212,9 @@ func enumC14(tier string, e *engine.Emitter) {
 		}
 		for _, a := range docs[:4] {
 			for _, b := range docs[:4] {
-				e.Emit(engine.Case{Kind: "c14git:" + bin, Leg: "git-diff-driver/" + bin, A: a, B: b})
+				for _, fl := range []string{"", "-set", "-mset", "-precision 0.1", "-setkeys id", "-f patch", "-f merge", "-set -f merge", "-color"} {
+					e.Emit(engine.Case{Kind: "c14git:" + bin, Leg: "git-diff-driver/" + bin, A: a, B: b, X: fl})
+				}
 			}
 		}
 		for _, inv := range []string{"-p -t jd2patch A B", "-precision 0.1 -set A B", "-precision 0.1 -mset A B", "-f bogus A B", "-p -f bogus A B", "-t bogus A", "-setkeys id,, A B", "-setkeys , A B",
@@ -774,19 +776,27 @@ func runC14Git(c *engine.Case) engine.Result {
 	dir := cli.TempDir()
 	defer os.RemoveAll(dir)
 	fa, fb := cli.WriteFile(dir, "a.json", c.A), cli.WriteFile(dir, "b.json", c.B)
+	f := parseC14Flags(c.X)
 	// git passes: path old-file old-hex old-mode new-file new-hex new-mode
-	args := append(append([]string{}, extra...), "-git-diff-driver", "path", fa, "0000", "100644", fb, "1111", "100644")
+	args := append(append([]string{}, extra...), f.args()...)
+	args = append(args, "-git-diff-driver", "path", fa, "0000", "100644", fb, "1111", "100644")
 	got := cli.Run(dir, bin, args, nil)
 	res.Transitions++
 	res.Traces++
-	// the git driver always uses the v2 library
-	want := modelDiff("v2", c14Flags{}, c.A, c.B)
+	// the git driver always uses the v2 library, with the options given on the command line
+	want := modelDiff("v2", f, c.A, c.B)
 	if crashed(got) {
 		res.Violation = "git diff driver crashed: " + firstLine(got.Stderr)
 		return res
 	}
-	if want.Exit != 2 && got.Stdout != want.Out {
-		res.Violation = fmt.Sprintf("git diff driver printed %q, the library renders %q", got.Stdout, want.Out)
+	if len(extra) > 0 && c.X != "" {
+		return res // -v2=false: the v1 option parser is used but the v2 diff runs without options; not part of the contract
+	}
+	switch {
+	case want.Exit == 2 && got.Exit != 2:
+		res.Violation = fmt.Sprintf("git diff driver with %q exits %d although the library reports an error", c.X, got.Exit)
+	case want.Exit != 2 && got.Stdout != want.Out:
+		res.Violation = fmt.Sprintf("git diff driver with %q printed %q, the library renders %q", c.X, got.Stdout, want.Out)
 	}
 	return res
 }
